@@ -1,10 +1,44 @@
-(** C04 — proofs (top file; re-exports the lemma files). *)
-From Coq Require Import ZArith List Bool.
+(** C04 — proofs, top file: the exported lemmas (proved in ProofsBase/Undo/Ops/Inv/Sim/Run),
+    non-vacuity examples and the witnesses refuting the property for the pre-fix behaviour. *)
+From Coq Require Import ZArith List Bool Lia.
 Import ListNotations.
 Local Open Scope Z_scope.
 Require Import Nib.C04.Model Nib.C04.Spec.
+Require Export Nib.C04.ProofsBase Nib.C04.ProofsUndo Nib.C04.ProofsOps Nib.C04.ProofsInv Nib.C04.ProofsSim Nib.C04.ProofsRun.
 
-(** ---- the behaviour before commit 72672e0 violates the property (vm_compute witnesses) ---- *)
+(** ---- the checker and the theorem speak about the same thing ---- *)
+Lemma forallb_ext {A} (f g : A -> bool) l : (forall x, f x = g x) -> forallb f l = forallb g l.
+Proof. intros H. induction l as [|x l IH]; simpl; [reflexivity|]. rewrite H, IH. reflexivity. Qed.
+
+Lemma final_matches_ext t t' x x' o :
+  store_eq t t' -> auxeq x x' -> final_matches t x o = final_matches t' x' o.
+Proof.
+  intros [A B] (L&Rf&Al&Als). unfold final_matches.
+  rewrite L, Rf.
+  rewrite (forallb_ext (fun p => acct_eqb (acct_of t (fst p)) (snd p)) (fun p => acct_eqb (acct_of t' (fst p)) (snd p)))
+    by (intros p; unfold acct_of; rewrite A; reflexivity).
+  rewrite (forallb_ext (fun p => stor t (fst (fst p)) (snd (fst p)) =? snd p) (fun p => stor t' (fst (fst p)) (snd (fst p)) =? snd p))
+    by (intros p; rewrite B; reflexivity).
+  rewrite (forallb_ext (fun p => Bool.eqb (al x (fst p)) (snd p)) (fun p => Bool.eqb (al x' (fst p)) (snd p)))
+    by (intros p; rewrite Al; reflexivity).
+  rewrite (forallb_ext (fun p => Bool.eqb (als x (fst (fst p)) (snd (fst p))) (snd p)) (fun p => Bool.eqb (als x' (fst (fst p)) (snd (fst p))) (snd p)))
+    by (intros p; rewrite Als; reflexivity).
+  reflexivity.
+Qed.
+
+(** if the implementation's committed observables equal the model's (no mismatch) on a
+    well-formed script, they equal the reference's: the first half of [P] *)
+Lemma model_agreement_gives_reference mx t0 body o :
+  wf_body mx body (r_init t0) = true ->
+  let s := run (PFrame body false) (init {| repaired := true; maxc := mx |} t0) in
+  let r := rrun mx (PFrame body false) (r_init t0) in
+  final_matches (commit s) (aux s) o = final_matches (r_final r) (r_aux r) o.
+Proof.
+  intros Hwf s r. destruct (frame_atomicity mx t0 body Hwf) as [H1 H2].
+  apply final_matches_ext; assumption.
+Qed.
+
+(** ---- non-vacuity ---- *)
 Definition U : Z := 1000000000000.
 Definition t_w : store :=
   {| accs := fun a => if a =? 1 then Some {| a_bal := 100; a_nonce := 1; a_code := 0 |}
@@ -12,6 +46,40 @@ Definition t_w : store :=
                       else if a =? 4 then Some {| a_bal := 50; a_nonce := 1; a_code := 1 |} else None;
      stor := fun a k => if (a =? 4) && (k =? 1) then 9 else 0 |}.
 
+(** an outer credit and SSTORE, a reverted frame with a nonce write, a bank-moving precompile call
+    and another SSTORE, then a successful precompile call, a self-destruct and a create *)
+Definition ex_script : list prog :=
+  [OAddBalance 2 (5 * U + 7); OSetState 1 2 9;
+   PFrame [OSetNonce 1 4; PPrecompile [(1, 2, 30)] false; OSetState 1 3 8; OSuicide 4 2] true;
+   PPrecompile [(1, 3, 10); (2, 1, 1)] false; OTouch 1; OTouch 3;
+   PFrame [PPrecompile [(3, 1, 2)] true; OCreate 5; OSetCode 5 2] false;
+   OSuicide 4 1; OSetNonce 1 6].
+
+Example frame_atomicity_nonvacuous :
+  wf_body 10 ex_script (r_init t_w) = true /\
+  let t := commit (run (PFrame ex_script false) (init {| repaired := true; maxc := 10 |} t_w)) in
+  map (acct_of t) [1; 2; 3; 4; 5] =
+    [Some (141, 6, 0); Some (54, 0, 0); Some (10, 0, 0); None; Some (0, 1, 2)] /\
+  [stor t 1 2; stor t 1 3; stor t 4 1] = [9; 0; 0].
+Proof. vm_compute. repeat split; reflexivity. Qed.
+
+Example balance_views_nonvacuous :
+  let s := run (PFrame [OAddBalance 2 (5 * U + 7); OSetState 1 2 9] false) (init {| repaired := true; maxc := 10 |} t_w) in
+  let s' := run_sends [(1, 3, 10); (2, 1, 1)] (commit_cache (precompile_snapshot s)) in
+  map (fun a => (match lookup s' a with Some o => bal o | None => 0 end, bank_bal (cur_store s') a)) [1; 2; 3] =
+    [(91 * U, 91); (54 * U, 54); (10 * U, 10)].
+Proof. vm_compute. reflexivity. Qed.
+
+Definition ten_calls : list prog := repeat (PPrecompile [(1, 2, 1)] false) 10.
+Example call_limit_nonvacuous :
+  let s := run (PFrame ten_calls false) (init {| repaired := true; maxc := 10 |} t_w) in
+  calls s = 10 /\
+  let s' := precompile_call s [(1, 2, 1)] false in
+  calls s' = 11 /\ length (journal s') = length (journal s) /\
+  acct_of (commit s') 2 = Some (60, 0, 0).
+Proof. vm_compute. repeat split; reflexivity. Qed.
+
+(** ---- the behaviour before commit 72672e0 violates the property (vm_compute witnesses) ---- *)
 Definition agrees_at (rep : bool) (mx : Z) (t0 : store) (body : list prog) (al : list addr) (kl : list key) : bool :=
   let t := commit (run (PFrame body false) (init {| repaired := rep; maxc := mx |} t0)) in
   let r := r_final (rrun mx (PFrame body false) (r_init t0)) in
